@@ -31,7 +31,7 @@ func init() {
 			"retention is measured as reachable idr nodes (the statement's own metric), not heap bytes; heap-in-use is reported but never decides",
 			"records of one stream have the same shape, so a correct reader shows an exactly constant size",
 		},
-		Cases: func(t core.Tier) int { return 98 },
+		Cases: func(t core.Tier) int { return 99 },
 		Run:   runC17,
 		Batch: func(t core.Tier) int { return 2 },
 		Min: func(t core.Tier) map[string]int64 {
@@ -237,8 +237,40 @@ func c17Separators(c *core.Ctx, hf bool) {
 	c17Monitor(c, "fixed-length", mode, "", false, []byte(schema), st, N)
 }
 
+// c17JSONScalars: the targets are plain-valued properties of one JSON object, a part of them rejected by the filter.
+func c17JSONScalars(c *core.Ctx) {
+	N := 5000
+	if c.Tier == core.Thorough {
+		N = 200000
+	}
+	schema := `{"parser_settings":{"version":"omni.2.1","file_format_type":"json"},"transform_declarations":{"FINAL_OUTPUT":{"xpath":"/readings/*[.!='0']","object":{"v":{"xpath":"."}}}}}`
+	st := &recStream{n: N, i: -1, next: func(i int) []byte {
+		switch {
+		case i < 0:
+			return []byte(`{"unit":"c","readings":{`)
+		case i >= N:
+			return []byte(`}}`)
+		}
+		v := 100 + i%5
+		if i%3 == 1 {
+			v = 0
+		}
+		sep := ","
+		if i == 0 {
+			sep = ""
+		}
+		return []byte(fmt.Sprintf(`%s"t%d":"%d"`, sep, i, v))
+	}}
+	c.Inc("streams_with_scalar_targets")
+	c17Monitor(c, "json", "scalar-properties", ".!='0'", false, []byte(schema), st, N)
+}
+
 func runC17(c *core.Ctx) {
 	r := c.R
+	if c.Idx == 98 {
+		c17JSONScalars(c)
+		return
+	}
 	if c.Idx >= 96 {
 		c17Separators(c, c.Idx == 97)
 		return
@@ -250,6 +282,7 @@ func runC17(c *core.Ctx) {
 	format := gen.Formats[c.Idx%len(gen.Formats)]
 	variant := c.Idx / len(gen.Formats) // 0..11
 	seps := variant&1 == 1
+	numericFilter := false
 	mode := []string{gen.ModePass, gen.ModeFilter, gen.ModeFailing, gen.ModeRich}[(variant>>1)%4]
 	k := gen.NewKit(r, format)
 	if variant >= 8 {
@@ -261,6 +294,10 @@ func runC17(c *core.Ctx) {
 			fs = []string{`@num!="0"`, `@num!='0' and @num!="it's"`, `@num!='0'][@num!=']'`, `@num!="0" and id!='["'`}
 		}
 		k.Filter = fs[variant-8]
+		if variant == 9 && seps && format != "fixed-length" && format != "fixedlength2" {
+			// a numeric comparison; the non-targets carry "x" there, on which the xpath engine fails rather than answers false
+			k.Filter, numericFilter = "n >= 1", true
+		}
 		c.Inc("streams_with_respelled_filters")
 	}
 	if k.IgnoreCRLF || format != "edi" {
@@ -281,6 +318,9 @@ func runC17(c *core.Ctx) {
 		}
 		if mode == gen.ModeFilter && (i%3 == 1 && !rejectRuns || rejectRuns && (i%7 == 1 || i%7 == 2 || i%7 == 3 || i%7 == 5)) {
 			rec.Num = "0" // not a target; with rejectRuns, runs of three and of one consecutive non-targets
+			if numericFilter {
+				rec.Num = "x"
+			}
 		}
 		if mode == gen.ModeFailing && i%4 == 2 {
 			rec.Num = "x"
